@@ -22,3 +22,7 @@ check('C17', 'runtime monitor: reference-model oracle (flattened-layers model of
       'Held on every step executed: random forests of up to 9 contexts mixing Context, MultiContext and LinkedContext and 30-40 step histories of set/delete/child/register(exclusive)/delete_function; after each step every read (ctx[name], name in ctx, keys, get_functions, collect_functions, fd in ctx) on every context is compared.',
       'Deletions with partial effect and removal of exclusively registered names are not generated (unspecified by the statement).',
       'DESIGN.md 2/C17')
+check('C10', 'runtime monitor: independent canonicaliser as oracle for the `$` round trip + recursive type census of every finalised result (invariant: plain data only) with finalisation-failure classifier; branch reach of convert_output_data observed through a sys.monitoring hook',
+      'Held on every document/expression executed: generated nested host documents (dicts, lists, tuples, sets, generators) and generated expressions nesting every value kind the library returns (views, generators, ordering objects, frozen dicts/sets, as set elements and dict keys) under all 4 convertTuplesToLists x convertSetsToLists combinations, through Statement.evaluate and YaqlInterface. Unhashable-element finalisation failures are listed known findings.',
+      'Evaluation success is established on an engine copy with output conversion off; host frozensets are not generated (characterised corner).',
+      'DESIGN.md 2/C10')
